@@ -139,7 +139,10 @@ End Decode.
 (* the skip used when the model is run: one well-formed item (PV.Cbor.decode);
    the harness only sends surplus elements on which this and minicbor agree *)
 Definition skip_item (bs : list Z) : dres (list Z) :=
-  dbind (decode bs) (fun '(_, r) => DOk r).
+  match bs with
+  | 255 :: r => DOk r     (* a lone break byte is consumed (skip's BREAK arm with nrounds = 1) *)
+  | _ => dbind (decode bs) (fun '(_, r) => DOk r)
+  end.
 
 Definition byron_wf (a : byron) : Prop :=
   bytes_wf (fst a) /\ len (fst a) < 18446744073709551616 /\ 0 <= snd a < 4294967296.
